@@ -12,10 +12,11 @@ booleans are 0/1.
   to `dst` run by run; the mirror returns the list of runs (`Run`) in the same order and
   `serialize` writes each run the way `appendRunLength*` / `appendBitPacked*` do.
   Bit-packed payloads are written as `packBytes` (LSB-first packing of the values masked to the bit
-  width). For the levels kernel `encodeBytesBitpackDefault` this is a theorem about its
-  transliteration (`RleDecode.goEncodeBytesBitpack`, `levels_pack_kernel`); for int32 the kernel is
-  the third-party `bitpack.Pack` (streaming 64-bit accumulator), modelled as `packBytes` and tied
-  by L2 only. The Go DECODERS and their portable kernels are mirrored in `RleDecode.lean`.
+  width). That this is what the portable kernels compute is proved about their transliterations in
+  `RleDecode.lean`: `encodeBytesBitpackDefault` (`levels_pack_kernel`) and the third-party
+  `bitpack.Pack` / `packInt32Default` (`int32_pack_kernel`); likewise for the decoding kernels
+  (`levels_unpack_kernel`, `int32_unpack_kernel`). The assembly kernels (BMI2 / AVX2 / bitpack amd64)
+  are tied by L2 only. The Go DECODERS are mirrored in `RleDecode.lean`.
 -/
 namespace PqModel.Rle
 open PqModel.Bits
